@@ -89,6 +89,14 @@ fn main() {
             cfg.emit_whitespace(job2["emit_whitespace"].as_bool().unwrap_or(true));
             cfg.emit_report(job2["emit_report"].as_bool().unwrap_or(false));
             let via_env = job2["via"].as_str() == Some("cargo_env");
+            // "explicit_over_env": features given with set_features while CARGO_FEATURE_* name OTHER features
+            // (the explicit set, also an empty one, must win); processed with process_dir like a build script
+            let over_env = job2["via"].as_str() == Some("explicit_over_env");
+            if over_env {
+                for f in job2["env_features"].as_array().cloned().unwrap_or_default() {
+                    std::env::set_var(format!("CARGO_FEATURE_{}", f.as_str().unwrap().to_uppercase()), "1");
+                }
+            }
             if let Some(fs) = job2["features"].as_array() {
                 if via_env {
                     // the way a build script gets them from Cargo
@@ -99,7 +107,7 @@ fn main() {
                     cfg.set_features(fs.iter().map(|f| f.as_str().unwrap().to_string()));
                 }
             }
-            let r = if via_env {
+            let r = if via_env || over_env {
                 // process_dir over the directory that holds (only) this file
                 let dir = std::path::Path::new(&file).parent().unwrap().to_path_buf();
                 cfg.process_dir(dir).map_err(|e| e.to_string())
@@ -111,6 +119,11 @@ fn main() {
                     for f in fs {
                         std::env::remove_var(format!("CARGO_FEATURE_{}", f.as_str().unwrap().to_uppercase()));
                     }
+                }
+            }
+            if over_env {
+                for f in job2["env_features"].as_array().cloned().unwrap_or_default() {
+                    std::env::remove_var(format!("CARGO_FEATURE_{}", f.as_str().unwrap().to_uppercase()));
                 }
             }
             r
